@@ -26,7 +26,7 @@ ASSUMPTIONS = ["following the server's smaller block size in later Block1 reques
                "a non-block answer in the middle of a Block2 transfer may be accepted as the complete representation"]
 EXPECTED_PROBES = ["block1_multi", "block2_multi", "szx_reduced_block1", "szx_reduced_block2", "misbehave_b1_wrong_num",
                    "misbehave_b1_more_on_final", "misbehave_b2_short", "misbehave_b2_skip", "misbehave_b2_etag_change",
-                   "misbehave_b2_etag_presence_change", "block1_acked_without_more_bit", "block1_transfer_rejected_midway", "unfragmented_request_refused_with_size_hint", "retransmitted_block", "unfragmented_1124", "separate_response", "empty_ack_lost_response_delivered", "error_response_mid_transfer", "empty_final_block"]
+                   "misbehave_b2_etag_presence_change", "block1_acked_without_more_bit", "block1_transfer_rejected_midway", "unfragmented_request_refused_with_size_hint", "retransmitted_block", "unfragmented_1124", "separate_response", "empty_ack_lost_response_delivered", "error_response_mid_transfer", "empty_final_block", "download_from_a_chosen_block_on"]
 
 LENGTHS = [0, 1, 15, 16, 17, 31, 32, 33, 63, 64, 65, 127, 128, 129, 511, 512, 513, 1023, 1024, 1025, 1124, 1125,
            2047, 2048, 2049, 3000, 5000]
@@ -88,7 +88,19 @@ def gen_transfer(r, i):
     return tr
 
 
+def gen_random_access(r):
+    """The application asks for the body from a block of its own choosing on (a Block2 option with a non-zero block number
+    on a request handed to the block-wise client: resuming a download, random access)."""
+    szx = r.choice([0, 2, 4, 6])
+    nblocks = r.randint(2, 8)
+    rlen = nblocks * size_of(szx) - r.choice([0, 1, size_of(szx) - 1])
+    return {"ra": {"rlen": rlen, "szx": szx, "k": r.randint(1, nblocks - 1), "etag": r.chance(0.7), "method": r.choice(["GET", "FETCH"])},
+            "transfers": [], "net": {}}
+
+
 def gen(r, tier):
+    if r.chance(0.06):
+        return gen_random_access(r)
     n = r.choice([1, 1, 2, 3])
     trs = [gen_transfer(r, i) for i in range(n)]
     for i, tr in enumerate(trs):
@@ -125,6 +137,9 @@ def systematic(tier):
                     out.append({"transfers": [{"id": 0, "method": method, "qlen": ql, "rlen": rl, "s1": 2, "s1_reduce": None,
                                                "s2": 2, "s2_reduce": None, "cexp": 6, "etag": True, "misbehave": None, "at": 0, "t": 0.0,
                                                "sep": {"at": at, "delay": 0.05, "con": con, "lose_ack": lose}}], "net": {}})
+    for szx, nb in ((2, 4), (6, 3), (0, 8)):
+        for k in range(1, nb):
+            out.append({"ra": {"rlen": nb * size_of(szx) - 3, "szx": szx, "k": k, "etag": True, "method": "GET"}, "transfers": [], "net": {}})
     for ln in (16, 32, 48, 1024, 2048, 3072, 17, 0):
         for s2, c in ((0, 6), (6, 6), (2, 0), (6, 2)):
             out.append({"transfers": [{"id": 0, "method": "GET" if ln % 32 else "POST", "qlen": 0, "rlen": ln, "s1": 6, "s1_reduce": None,
@@ -139,6 +154,8 @@ def systematic(tier):
 
 
 def shrink(scn):
+    if scn.get("ra"):
+        return
     trs = scn["transfers"]
     if len(trs) > 1:
         for i in range(len(trs)):
@@ -431,7 +448,49 @@ class RefServer7959(ScriptedEndpoint):
 METHODS_WITH_BODY = {rc.PUT: True, rc.POST: True, rc.FETCH: True}
 
 
+def execute_random_access(sim, scn):
+    from aiocoap import Message, error
+    from aiocoap.numbers.codes import Code
+
+    loop = sim.loop
+    ra = scn["ra"]
+    client = loop.run_until_complete(sim.client(common.CLIENT_IP))
+    spec = {"id": 0, "method": ra["method"], "qlen": 0, "rlen": ra["rlen"], "s1": 6, "s1_reduce": None, "s2": 6, "s2_reduce": None,
+            "cexp": 6, "etag": ra["etag"], "misbehave": None, "at": 0, "t": 0.0}
+    server = RefServer7959(sim, common.PEER_IPS[0], 5683, {0: spec})
+    tracker = common.Tracker(sim)
+    sim.probe("download_from_a_chosen_block_on")
+
+    def start():
+        msg = Message(code=Code(METHODS[ra["method"]]), uri="coap://[%s]/x0" % server.addr[0], block2=(ra["k"], False, ra["szx"]))
+        tracker.start(0, client, msg, handle_blockwise=True)
+    loop.at(0.0, start)
+    sim.run()
+    sim.nontrivial = True
+    rec = tracker.results[0]
+    st = server.state(0)
+    ident = {"asked_from_block": ra["k"], "szx": ra["szx"], "rlen": ra["rlen"], "method": ra["method"]}
+    if not rec["done"]:
+        sim.violation("C05/transfer-never-completed", ident)
+    elif rec["outcome"] == "response":
+        got = bytes(rec["response"].payload)
+        fulls = [full for (rid, full) in st["reprs"]]
+        off = ra["k"] * size_of(ra["szx"])
+        # what may be handed over: the representation from the chosen block on (or just that block, if the caller is
+        # told so by the more-flag) -- never pieces that do not follow each other
+        ok = any(got == full[off:] or (got == full[off:off + size_of(ra["szx"])] and rec["response"].opt.block2 is not None
+                                       and rec["response"].opt.block2.more) for full in fulls)
+        if not ok:
+            sim.violation("C05/response-body-mixed-or-duplicated", dict(ident, got_len=len(got), head=got[:24].hex()))
+    elif not isinstance(rec["exception"], error.Error):
+        sim.anomaly("random-access-error-not-a-library-error", repr(rec["exception"]))
+    for (t, m, en, es) in sim.loop_exceptions():
+        sim.anomaly("loop-exception:%s" % en, "%s %s" % (m, es))
+
+
 def execute(sim, scn):
+    if scn.get("ra"):
+        return execute_random_access(sim, scn)
     from aiocoap import Message, error
     from aiocoap.numbers.codes import Code
 
